@@ -641,7 +641,8 @@ func init() {
 	Register("C08", &Scenario{
 		Name:   "password-login",
 		Weight: 1,
-		Owns:   []string{"C08"},
+		// a login that never returns is a refused login
+		Owns:   []string{"C08", "stuck", "deadlock"},
 		New:    func() any { return &lgPlan{} },
 		Gen:    genLgPlan,
 		Cfg:    func(tp *simrt.Tape, plan any) simrt.Config { return swarmCfg(tp, false) },
